@@ -24,7 +24,11 @@ assert s.count(old)==1; s=s.replace(old,""); open(p,'w').write(s)
     'm2': r'''# variable_elasticities: asymmetric lower displacement
 p='src/mxlpy/mca.py'; s=open(p).read()
 old="variables=variables | {var: old * (1 - displacement)}, time=time"
-assert s.count(old)==1; s=s.replace(old,"variables=variables | {var: old * (1 - 2 * displacement)}, time=time"); open(p,'w').write(s)
+if s.count(old)==1: s=s.replace(old,"variables=variables | {var: old * (1 - 2 * displacement)}, time=time")
+else:  # tree with the helper _displace
+    old="variables=variables | {var: lower_value}, time=time"
+    assert s.count(old)==1; s=s.replace(old,"variables=variables | {var: lower_value - (upper_value - old)}, time=time")
+open(p,'w').write(s)
 ''',
     'm3': r'''# worker: parameter reset moved before the (lazy) result views are evaluated
 p='src/mxlpy/mca.py'; s=open(p).read()
@@ -47,6 +51,8 @@ new="""        elasticity_coef = (upper - lower) / (2 * displacement * old)
         # Reset
         model.update_parameters({par: old})
 """
+if s.count(old)!=1:  # tree with the helper _displace
+    old=old.replace("(2 * displacement * old)","distance"); new=new.replace("(2 * displacement * old)","distance")
 assert s.count(old)==1; s=s.replace(old,new); open(p,'w').write(s)
 ''',
     'm5': r'''# worker: initial values restored too early (before the normalisation run)
@@ -71,6 +77,8 @@ assert s.count("displacement: float = 1e-4,")==4; s=s.replace("displacement: flo
     'm8': r'''# worker: upper / lower perturbations swapped (sign of every response coefficient flips)
 p='src/mxlpy/mca.py'; s=open(p).read()
 a="model.update_parameters({parameter: old * (1 + displacement)})"; b="model.update_parameters({parameter: old * (1 - displacement)})"
+if s.count(a)!=1:  # tree with the helper _displace
+    a="model.update_parameters({parameter: upper_value})"; b="model.update_parameters({parameter: lower_value})"
 assert s.count(a)==1 and s.count(b)==1; s=s.replace(a,"@@").replace(b,a).replace("@@",b); open(p,'w').write(s)
 ''',
     'm9': '''# response_coefficients: the flux frame is built from the concentration series
@@ -109,6 +117,11 @@ assert s.count(old)==1; s=s.replace(old,""); open(p,'w').write(s)
 p='src/mxlpy/mca.py'; s=open(p).read()
 old="    if value == 0:\\n"
 assert s.count(old)==1; s=s.replace(old,"    if abs(value) < 1:\\n"); open(p,'w').write(s)
+''',
+    'z5': '''# _displace: tolerance-based zero test (shape of seeded C18-4): a tiny non-zero value is displaced absolutely
+p='src/mxlpy/mca.py'; s=open(p).read()
+old="    if value == 0:\\n"
+assert s.count(old)==1; s=s.replace(old,"    if abs(value) <= 1e-8:\\n"); open(p,'w').write(s)
 ''',
 }
 
